@@ -2,10 +2,10 @@ package main
 
 // Registry of checks: which harness runs on which configurations per tier.
 
-const nCoreTables = 32
+const nCoreTables = 34
 
 func curlyOnly(tbl int) bool { return tbl == 2 || tbl == 3 || tbl == 6 || tbl == 18 || tbl == 22 || tbl == 28 }
-func hasMedia(tbl int) bool  { return tbl == 8 || tbl == 9 }
+func hasMedia(tbl int) bool  { return tbl == 8 || tbl == 9 || tbl == 32 || tbl == 33 }
 
 var commonAssumptions = []string{
 	"symbolic bytes are ASCII (0x00-0x7f); non-ASCII input is outside the claim",
@@ -136,7 +136,7 @@ func properties() map[string]*propDef {
 		ID: "C18",
 		Items: func(tier string, seed int) []item {
 			var out []item
-			for _, tbl := range []int{0, 1, 7, 8, 9, 10, 15, 16, 19, 21, 24, 25, 26, 27, 29, 30} {
+			for _, tbl := range []int{0, 1, 7, 8, 9, 10, 15, 16, 19, 21, 24, 25, 26, 27, 29, 30, 32, 33} {
 				st18 := 0
 				if tier == "thorough" {
 					st18 = 10
@@ -151,7 +151,7 @@ func properties() map[string]*propDef {
 			}
 			return out
 		},
-		Bounds:         map[string]interface{}{"path_bytes": 12, "segments": 3, "method_bytes": 7, "content_type_bytes": 6, "accept_bytes": 8, "tables": 16},
+		Bounds:         map[string]interface{}{"path_bytes": 12, "segments": 3, "method_bytes": 7, "content_type_bytes": 6, "accept_bytes": 8, "tables": 18},
 		Assumptions:    commonAssumptions,
 		Rule:           "core tables of the common fragment (literal roots, literal/plain-variable segments) x stage; twin containers (CurlyRouter, RouterJSR311) get the same symbolic request",
 		RequiredCovers: []string{"invoked", "not-invoked"},
@@ -351,11 +351,11 @@ func properties() map[string]*propDef {
 				shapes = append(shapes, []int{2, 2, 2}, []int{0, 2, 0}, []int{1, 0, 2})
 			}
 			for _, sh := range shapes {
-				for recov := 0; recov < 2; recov++ {
+				for recov := 0; recov < 3; recov++ {
 					for enc := 0; enc < 2; enc++ {
 						for entry := 0; entry < 3; entry++ {
 							out = append(out, item{Harness: "H_C10", Cfg: []int{sh[0], sh[1], sh[2], recov, enc, entry},
-								Label: "container/service/route filter counts, recovery on, container encoding on, entry (Dispatch, ServeHTTP, Dispatch of a request that fails routing)"})
+								Label: "container/service/route filter counts, recovery (0 off, 1 on with a custom handler, 2 on with the default handler), container encoding on, entry (Dispatch, ServeHTTP, Dispatch of a request that fails routing)"})
 						}
 					}
 				}
